@@ -155,6 +155,28 @@ theorem stringRec_pureChain (n : Nat) : stringRec (pureChain n) = n + 1 := by
       simp only [stringRec]
       rw [← hp, ih]; omega
 
+theorem stringPoly_loop (t : Node) : stringPoly (fun _ => false) t = 1 := by
+  match t with
+  | .str _ => simp [stringPoly]
+  | .tag _ _ _ _ [] => simp [stringPoly]
+  | .tag _ _ _ _ (_ :: _ :: _) => simp [stringPoly]
+  | .tag _ _ _ _ [.str _] => simp [stringPoly]
+  | .tag _ _ _ _ [.tag n a kx v ks] =>
+    simp only [stringPoly, Bool.false_eq_true, ↓reduceIte]
+    exact stringPoly_loop (.tag n a kx v ks)
+
+theorem stringPoly_pureChain (n : Nat) : stringPoly (fun _ => true) (pureChain n) = n + 1 := by
+  induction n with
+  | zero => simp [pureChain, stringPoly]
+  | succ n ih =>
+    have : pureChain (n + 1) = .tag 1 0 true false [pureChain n] := rfl
+    rw [this]
+    cases hp : pureChain n with
+    | str v => cases n <;> simp [pureChain] at hp
+    | tag n' a kx v ks =>
+      simp only [stringPoly, ↓reduceIte]
+      rw [← hp, ih]; omega
+
 theorem smoothRec_ge_pureChain (anc : List Bool) (n : Nat) : n + 1 ≤ smoothRec anc (pureChain n) := by
   induction n generalizing anc with
   | zero => simp [pureChain, smoothRec, call]
